@@ -197,6 +197,16 @@ def run_case(wname, present, seq):
                     import shutil
                     shutil.rmtree(os.path.join(r_, d_))
                     ds.remove(d_)
+        if wname == 'resumable' and 'r' in names and 'r' not in had:
+            # the resumable task was interrupted in the SOURCE as well: its work directory holds the progress made so far (no result yet)
+            w.rt.faults['R'] = ['raise_partial']
+            try:
+                _ = w.chain('v0', base_dir=src, parameter_mode=False).tasks['r'].value
+            except Exception:  # noqa
+                pass
+            w.rt.faults.clear()
+            from tcv.histories import Exec
+            Exec._detach_handlers(None)
         snap = listing(src)
         if wname == 'resumable':
             # somebody already tried the parameter-mode chain on the target and the resumable task died part way
